@@ -65,6 +65,8 @@ func runC17(w *World, r *Report) {
 	r.Rule("C17-R1", "write-through agreement", "every store.Put(key, X.ConvertToMetaMsg()) in UpdateTaskDrop*Msg has a map assignment tables[task][msg] = X from the same variable X, with no write to X between the two reads", 6)
 	r.Rule("C17-R2", "removal covers every table", "every map field of ReplicateMeteImpl written by an Update* method is deleted from in RemoveTaskMsg under the same (task,msg) key, and the store key is removed", 4)
 	r.Rule("C17-R3", "reload exhaustiveness", "Reload has a case for every MetaMsgType constant and assigns into every table", 4)
+	r.Rule("C17-R9", "tables are keyed [task][message] everywhere", "every lookup or update of dropCollectionMsgs / dropPartitionMsgs uses a task id for the outer table and a message id for the inner one (Update*, Get*, Remove, Reload alike)", 10)
+	c17KeyRoles(w, r)
 	r.Rule("C17-R4", "merge is a union; readiness is of the persisted value", "in the merge branch X.Base.ReadyChannels = lo.Union(old, new); the bool returned on success is X.Base.IsReady() of the X that was persisted", 8)
 	r.Rule("C17-R5", "one key for memory and store", "the MsgID/TaskID used for the in-memory entry equal those given to GetMetaKey for the Put", 6)
 
@@ -490,4 +492,66 @@ func sortedVars(m map[*types.Var]bool) []*types.Var {
 		}
 	}
 	return out
+}
+
+// c17KeyRoles: C17-R9.
+func c17KeyRoles(w *World, r *Report) {
+	n := 0
+	for _, fn := range w.RepoFuncs() {
+		if fn.Pkg.Pkg.Path() != pkgMeta || fnSym(rootFunc(fn)).recv != "ReplicateMeteImpl" {
+			continue
+		}
+		host := shortFn2(fn)
+		k := 0
+		eachInstr(fn, func(in ssa.Instruction) {
+			var m, key ssa.Value
+			switch x := in.(type) {
+			case *ssa.MapUpdate:
+				m, key = x.Map, x.Key
+			case *ssa.Lookup:
+				if _, isMap := x.X.Type().Underlying().(*types.Map); isMap {
+					m, key = x.X, x.Index
+				}
+			case *ssa.Call:
+				if b, ok := x.Call.Value.(*ssa.Builtin); ok && b.Name() == "delete" {
+					m, key = x.Call.Args[0], x.Call.Args[1]
+				}
+			}
+			if m == nil {
+				return
+			}
+			mp := w.accessPath(m)
+			outer := strings.HasSuffix(mp, ".dropCollectionMsgs") || strings.HasSuffix(mp, ".dropPartitionMsgs")
+			inner := false
+			if !outer {
+				for _, y := range backSlice(m, SliceOpts{MaxDepth: 5, NoAggregates: true}) {
+					if lk, isL := y.(*ssa.Lookup); isL {
+						lp := w.accessPath(lk.X)
+						if strings.HasSuffix(lp, ".dropCollectionMsgs") || strings.HasSuffix(lp, ".dropPartitionMsgs") {
+							inner = true
+						}
+					}
+				}
+			}
+			if !outer && !inner {
+				return
+			}
+			kp := strings.ToLower(w.accessPath(key))
+			// range keys over the tables themselves carry the role of the table level
+			if strings.HasSuffix(kp, "[key]") {
+				return
+			}
+			n++
+			k++
+			want := "msgid"
+			level := "inner (message)"
+			if outer {
+				want, level = "taskid", "outer (task)"
+			}
+			r.Check(strings.Contains(kp, want), "C17-R9", fmt.Sprintf("%s | %s table key #%d", host, level, k), in.Pos(), "keyed by "+w.accessPath(key), "the "+level+" level of the drop-message table is keyed by "+w.accessPath(key)+": messages are filed under the wrong key, so later reports, lookups, removals or a reload no longer find them")
+		})
+	}
+	if n < 10 {
+		r.Fail("C17-R9", "table key census", 0, fmt.Sprintf("only %d keyed accesses of the drop-message tables found (10 confirmed)", n))
+	}
 }
